@@ -6,6 +6,8 @@ every stream type, every list of allowed codes and every grace period `g` (the c
 regenerated into `ConfModel.Generated.C03Facts.grace` on every run).
 -/
 import ConfModel.Lemmas.Assert
+import ConfModel.Model.AssertPath
+import ConfModel.Lemmas.AssertSeq
 namespace ConfModel.Props.C03
 open ConfModel.Assert ConfModel.Agree
 
@@ -363,5 +365,179 @@ example :
       [⟨"x-t", ["1".toList, "3".toList]⟩], 0, none⟩
     assert 500 .serverStream [] e a =
       [.detail 2, .timeoutRange, .payloadData 3, .headerValues .responseTrailers "x-t"] := by decide
+
+/-! ### The path from the client runner to `assert` (`runTestCasesForServer`, per test case)
+
+`AssertPath.deliver` is the loop body and the callback of `runTestCasesForServer`, statement by
+statement; `Flags` are the arguments that select logging (`-vv`), tracing and the reference-mode
+bookkeeping.  The correspondence run drives the real function with replies decoded from wire bytes
+(slices with spare capacity) and compares verdict, discrepancies, log lines and side-band with
+`deliver`, and the reply object after the run with a deep copy taken before. -/
+
+open ConfModel.AssertPath in
+/-- **The verdict does not depend on the logging / tracing / reference-mode flags**: for every
+reply of the client runner, every expected result and any two settings of the flags. -/
+theorem path_verdict_flag_independent (f f' : Flags) (g : Int) (st : StreamType) (other : List Nat)
+    (e : Result) (reply : Reply) :
+    (deliver f g st other e reply).verdict = (deliver f' g st other e reply).verdict := by
+  cases reply <;> cases f <;> cases f' <;> rename_i l _ _ _ l' _ _ _ <;> cases l <;> cases l' <;> rfl
+
+open ConfModel.AssertPath in
+/-- A reported result reaches `assert` untouched: what is recorded is what `assert` says about the
+result the client reported, whatever the flags and the feedback lines. -/
+theorem path_response_is_assert (f : Flags) (g : Int) (st : StreamType) (other : List Nat)
+    (e a : Result) (fb : List String) :
+    (deliver f g st other e (.response a fb)).verdict = .asserted (assert g st other e a) := by
+  cases f; rename_i l _ _ _; cases l <;> rfl
+
+open ConfModel.AssertPath in
+/-- The callback leaves the reply object as it found it (every statement that is handed the reply
+returns it unchanged), for every reply and every setting of the flags. -/
+theorem path_preserves_reply (f : Flags) (g : Int) (st : StreamType) (other : List Nat)
+    (e : Result) (reply : Reply) : (deliver f g st other e reply).after = reply := by
+  cases reply <;> cases f <;> rename_i l _ r _ <;> cases l <;> cases r <;> rfl
+
+open ConfModel.AssertPath in
+/-- **End to end**: under `WellFormed`, a test case whose client reported a result is recorded as
+passed exactly when the reported result agrees with the expected one up to the documented
+leniencies — in every logging / tracing / reference mode. -/
+theorem path_passed_iff_agree (f : Flags) (g : Int) (st : StreamType) (other : List Nat)
+    (e a : Result) (fb : List String) (hw : WellFormed e a) :
+    (deliver f g st other e (.response a fb)).verdict.passed = true ↔ Agree g st other e a := by
+  rw [path_response_is_assert, ← assert_nil_iff g st other e a hw]
+  cases assert g st other e a <;> simp [Verdict.passed]
+
+open ConfModel.AssertPath in
+/-- non-vacuity: very verbose, traced, both reference modes; the pair of `assert_nil_iff`'s example
+passes, and the same reply with the expected header reported as a trailer does not -/
+example :
+    let f : Flags := ⟨true, true, true, true⟩
+    let e : Result := ⟨[⟨"X-A", ["1".toList, "2".toList]⟩], [⟨[1, 2], none⟩], none, [], 0, some 200⟩
+    let a : Result := ⟨[⟨"x-a", ["1, 2".toList]⟩, ⟨"vary", []⟩, ⟨"Vary", []⟩], [⟨[1, 2], none⟩], none, [⟨"extra", []⟩], 3, none⟩
+    let b : Result := ⟨[⟨"vary", []⟩, ⟨"Vary", []⟩, ⟨"z", []⟩], [⟨[1, 2], none⟩], none, [⟨"x-a", ["1, 2".toList]⟩], 3, none⟩
+    (deliver f 500 .serverStream [] e (.response a ["fb"])).verdict.passed = true ∧
+    (deliver f 500 .serverStream [] e (.response b ["fb"])).verdict
+      = .asserted [.headerMissing .responseHeaders "x-a"] ∧
+    (deliver f 500 .serverStream [] e (.response b ["fb"])).after = .response b ["fb"] := by decide
+
+open ConfModel.AssertPath in
+/-- No reply other than a reported result can make a test case pass. -/
+theorem path_passed_only_response (f : Flags) (g : Int) (st : StreamType) (other : List Nat)
+    (e : Result) (reply : Reply) (h : (deliver f g st other e reply).verdict.passed = true) :
+    ∃ a fb, reply = .response a fb ∧ assert g st other e a = [] := by
+  cases reply with
+  | response a fb =>
+    refine ⟨a, fb, rfl, ?_⟩
+    rw [path_response_is_assert] at h
+    cases hd : assert g st other e a with
+    | nil => rfl
+    | cons x xs => rw [hd] at h; simp [Verdict.passed] at h
+  | _ => cases f; rename_i l _ _ _; cases l <;> simp [deliver, logSending, logReceived, record, feedback, Verdict.passed] at h
+
+open ConfModel.AssertPath in
+example : ∃ a fb, (AssertPath.Reply.response ⟨[], [], none, [], 0, none⟩ ["x"]) = .response a fb ∧
+    assert 500 .unary [] ⟨[], [], none, [], 0, none⟩ a = [] := ⟨_, _, rfl, by decide⟩
+
+open ConfModel.AssertPath in
+/-- The log lines are a function of `logEach` and of whether a result was obtained only: nothing
+is logged without `-vv`, and the flags other than `logEach` never change the log. -/
+theorem path_log_only_logEach (f f' : Flags) (g : Int) (st : StreamType) (other : List Nat)
+    (e : Result) (reply : Reply) (h : f.logEach = f'.logEach) :
+    (deliver f g st other e reply).log = (deliver f' g st other e reply).log ∧
+    (f.logEach = false → (deliver f g st other e reply).log = []) := by
+  cases f; cases f'; simp only at h; subst h
+  rename_i l _ _ _ _ _ _
+  cases reply <;> cases l <;> simp [deliver, logSending, logReceived]
+
+open ConfModel.AssertPath in
+example : (deliver ⟨true, false, false, false⟩ 500 .unary [] default .neither).log = [.sending, .received] ∧
+    (deliver ⟨true, false, false, false⟩ 500 .unary [] default .noResult).log = [.sending] := by decide
+
+open ConfModel.AssertPath in
+/-- A whole batch (the test cases of one server instance): the verdicts are independent of the flags
+and every reply is left as it was. -/
+theorem path_batch_flag_independent (f f' : Flags) (g : Int)
+    (cases : List (StreamType × List Nat × Result × Reply)) :
+    (deliverAll f g cases).map (·.verdict) = (deliverAll f' g cases).map (·.verdict) ∧
+    (deliverAll f g cases).map (·.after) = cases.map (fun c => c.2.2.2) := by
+  induction cases with
+  | nil => exact ⟨rfl, rfl⟩
+  | cons c rest ih =>
+    obtain ⟨st, other, e, reply⟩ := c
+    simp only [deliverAll, List.map_cons]
+    rw [ih.1, ih.2, path_verdict_flag_independent f f', path_preserves_reply]
+    exact ⟨rfl, rfl⟩
+
+/-! ### What `assert` publishes: one `testResults` accumulator under a sequence of calls
+
+`AssertSeq.run` is the accumulator under any sequence of `assert` / `failed` / `setOutcome` /
+`failedToStart` / `failRemaining` / `recordSideband` calls with repeated names; `published` is what
+`report` works on.  The correspondence run issues such sequences on one real `testResults` and
+compares the stored outcome of every name and the names `report` lists as FAILED. -/
+
+open ConfModel.AssertSeq in
+/-- **The stored verdict of a name is that of its last comparison**: after any call sequence in
+which the last call that stores an outcome for `n` is `assert n … e a` (before it anything; after it
+anything that does not store for `n`, `failRemaining` and side-band messages included), the outcome
+of `n` is what the Assert model says about that last pair — not a setup error, and failed exactly
+with `assert`'s discrepancies. -/
+theorem seq_published_last_assert (g : Int) (pre post : List Call) (n : String) (st : StreamType)
+    (other : List Nat) (e a : Result) (hpost : ∀ c ∈ post, c.writes n = false) :
+    get (run g (pre ++ .assert n st other e a :: post)).outcomes n = some (verdictOf (assert g st other e a)) := by
+  unfold run
+  rw [List.foldl_append, List.foldl_cons]
+  apply foldl_keeps g n _ post _ hpost
+  simp only [step]
+  exact get_set_same _ _ _
+
+open ConfModel.AssertSeq in
+/-- … and that is what `report` shows: when no side-band message was recorded for `n`, `report`
+lists `n` as FAILED exactly when the last comparison found a discrepancy. -/
+theorem seq_report_last_assert (g : Int) (pre post : List Call) (n : String) (st : StreamType)
+    (other : List Nat) (e a : Result) (hpost : ∀ c ∈ post, c.writes n = false)
+    (hsb : ∀ c ∈ pre ++ post, c.isSidebandFor n = false) :
+    listedFailed (run g (pre ++ .assert n st other e a :: post)) n = !(assert g st other e a).isEmpty ∧
+    hasOutcome (run g (pre ++ .assert n st other e a :: post)) n = true := by
+  have hnone : get (run g (pre ++ .assert n st other e a :: post)).sideband n = none := by
+    unfold run
+    apply foldl_sideband_none g n _ _ _ rfl
+    intro c hc
+    rcases List.mem_append.mp hc with h | h
+    · exact hsb c (List.mem_append_left _ h)
+    · rcases List.mem_cons.mp h with h | h
+      · subst h; rfl
+      · exact hsb c (List.mem_append_right _ h)
+  have hp := seq_published_last_assert g pre post n st other e a hpost
+  unfold listedFailed hasOutcome published
+  rw [processSideband_other n _ _ hnone, hp]
+  cases assert g st other e a <;> simp [verdictOf]
+
+open ConfModel.AssertSeq in
+/-- **End to end over call sequences**: under `WellFormed`, `report` does not list `n` as FAILED
+exactly when the LAST reported result for `n` agrees with the expected one up to the documented
+leniencies — whatever was compared or recorded for `n` (or any other name) before. -/
+theorem seq_report_iff_agree (g : Int) (pre post : List Call) (n : String) (st : StreamType)
+    (other : List Nat) (e a : Result) (hpost : ∀ c ∈ post, c.writes n = false)
+    (hsb : ∀ c ∈ pre ++ post, c.isSidebandFor n = false) (hw : WellFormed e a) :
+    listedFailed (run g (pre ++ .assert n st other e a :: post)) n = false ↔ Agree g st other e a := by
+  rw [(seq_report_last_assert g pre post n st other e a hpost hsb).1, ← assert_nil_iff g st other e a hw]
+  cases assert g st other e a <;> simp
+
+open ConfModel.AssertSeq in
+/-- non-vacuity: a conforming result, then a deviating one for the same name (third payload), a
+`failRemaining` over the name and a side-band message for another name: listed as FAILED; and the
+other order: not listed -/
+example :
+    let p (b : UInt8) : Payload := ⟨[b], none⟩
+    let e : Result := ⟨[], [p 1, p 2, p 3], none, [], 0, none⟩
+    let bad : Result := ⟨[], [p 1, p 2, p 4], none, [], 0, none⟩
+    let post : List Call := [.remaining ["s/a", "s/b"], .sideband "s/b" "note", .failed "s/c"]
+    (∀ c ∈ post, c.writes "s/a" = false) ∧
+    listedFailed (run 500 ([.setup "s/a", .assert "s/a" .serverStream [] e e] ++ .assert "s/a" .serverStream [] e bad :: post)) "s/a" = true ∧
+    get (run 500 ([.setup "s/a", .assert "s/a" .serverStream [] e e] ++ .assert "s/a" .serverStream [] e bad :: post)).outcomes "s/a"
+      = some ⟨false, some (.discrepancies [.payloadData 3])⟩ ∧
+    listedFailed (run 500 ([.assert "s/a" .serverStream [] e bad] ++ .assert "s/a" .serverStream [] e e :: post)) "s/a" = false ∧
+    listedFailed (run 500 ([.assert "s/a" .serverStream [] e bad] ++ .assert "s/a" .serverStream [] e e :: post)) "s/b" = true := by
+  decide
 
 end ConfModel.Props.C03
